@@ -1,4 +1,5 @@
 import RtenVerif.Lemmas.OptimizePattern
+import RtenVerif.Model.FusionPatterns
 
 /-!
 # C01 — T4 matcher soundness, and further exact-algebra fusion lemmas (T2)
@@ -57,6 +58,27 @@ theorem c01_match_rank_clause (g : GView) (cfg : MatchCfg) (hk : cfg.strictKeys 
   simp only [embeds] at this
   obtain ⟨o, hw, _, _, _, hrk, _⟩ := this
   exact ⟨o, hw, hrk hr⟩
+
+/-- Every constant pattern of every modelled fusion is a direct operand of an operator pattern, so
+the rank clause of `embeds` (which speaks about an operator pattern's own — flattened — operand
+list) covers every constant these fusions can match. -/
+theorem allFusionPatterns_constsGuarded :
+    Fusions.allFusionPatterns.all (constsGuarded 16 false) = true := by decide
+
+/-- The side condition is needed: a constant directly under `anyOf` is invisible to the rank guard —
+in this model and in `pattern_matcher.rs` alike (latent: no fusion in `fusions.rs` has this shape).
+`x:[3] + c:[1,1]`, pattern `Add(x, anyOf [0.])`, rank guard on: the match succeeds. -/
+def gHole : GView :=
+  { ops := [⟨10, "Add", [some 0, some 9], [1]⟩], consts := [⟨9, "f", [1, 1], [0], []⟩], values := [0, 1] }
+def holeCfg : MatchCfg := { strictKeys := true, rankGuard := true, rank := fun v => if v = 0 then some 1 else if v = 9 then some 2 else none }
+theorem c01_anyOf_const_escapes_rank_guard :
+    (matchPat gHole holeCfg 8 (.op "Add" [.sym "x" false, .anyOf [.const 0 true]] none) 10 []).isSome = true ∧
+    matchPat gHole holeCfg 8 (.op "Add" [.sym "x" false, .const 0 true] none) 10 [] = none ∧
+    constsGuarded 8 false (.op "Add" [.sym "x" false, .anyOf [.const 0 true]] none) = false := by decide
+
+/-- positive-rank instance of the rank clause: `x:[2,3] + c:[1,1]` matches (rank 2 ≥ 2) … -/
+example : (matchPat gHole { holeCfg with rank := fun v => if v = 0 then some 2 else if v = 9 then some 2 else none } 8
+    (.op "Add" [.sym "x" false, .const 0 true] none) 10 []).isSome = true := by decide
 
 /-- Constant patterns only match float constants with exactly one element whose (finite) value `x`
 satisfies `|x − v| ≤ tol` as exact rationals, `tol` = 1e-4 (as f32) or 0 for exact patterns. -/
